@@ -294,3 +294,21 @@ Print Assumptions gen_publish_sites.
 Theorem gen_publish_pairs_covered : publishes_covered = true.
 Proof. exact gen_publish_pairs_covered_l. Qed.
 Print Assumptions gen_publish_pairs_covered.
+
+(* The mux-level failures after authentication (transaction-size gas, consensus minimum gas price)
+   are decided before the handler runs: for ANY handler the state is exactly the
+   post-authentication state. *)
+Theorem mux_level_failures_precede_handler : forall P exec x h size s t1 fa1 g1,
+  tx_critical x = false ->
+  exec Deliver x = Some h ->
+  auth P Deliver (m_tree s) (m_feeacc s) x = inr (t1, fa1, g1) ->
+  ((exists e, use_gas ((size * p_byte_cost P) mod two64) g1 = inl e) \/
+   ((0 <? p_min_gas_price P) = true /\ (gas_price x <? p_min_gas_price P) = true)) ->
+  exists e g, deliver P exec (Some x) size s = (Err e, g, post_auth_state s x).
+Proof. exact Proofs.mux_level_failures_precede_handler. Qed.
+Print Assumptions mux_level_failures_precede_handler.
+
+(* G: in the source the minimum-gas-price check precedes app.ExecuteTx *)
+Theorem gen_process_tx_order : process_tx_steps = [21; 22; 1; 23; 24; 25].
+Proof. exact gen_process_tx_order_l. Qed.
+Print Assumptions gen_process_tx_order.
